@@ -8,7 +8,7 @@
    What is proved here is the library-helper half of C20 ("helper routines never write beyond the
    space they reserved") for all argument values.  The statement about all 24 executables on all
    byte streams is NOT a theorem: it is observed by sanitizer runs (sampling), see checks/C20.py. *)
-From PP Require Import ToStr.ToStringDefs ToStr.ToStringProofs ToStr.ToStringDigits ToStr.ToStringValue.
+From PP Require Import ToStr.ToStringDefs ToStr.ToStringProofs ToStr.ToStringDigits ToStr.ToStringValue ToStr.ToStringHex.
 Local Open Scope Z_scope.
 
 (* full statement of the property, kept visible; only the part below it is proved *)
@@ -71,12 +71,11 @@ Theorem C20_16bit_digits :
 Proof. exact fmt_16_digits_proof. Qed.
 Print Assumptions C20_16bit_digits.
 
-(* pointers: text = "0x" + hexadecimal numeral.  PARTIAL: proved (exhaustively) for values below 2^16 only;
-   missing: the nibble induction for all 64-bit values (larger values are compared with Python's hex() on samples) *)
-Definition C20_ptr_digits_statement : Prop := forall p, 0 <= p < 18446744073709551616 -> f_out (fmt_ptr p) = 48 :: 120 :: hexnum p.
-Theorem C20_ptr_digits_partial : forall p, 0 <= p < 65536 -> f_out (fmt_ptr p) = 48 :: 120 :: hexnum p.
-Proof. exact fmt_ptr_digits_partial. Qed.
-Print Assumptions C20_ptr_digits_partial.
+(* pointers: text = "0x" + hexadecimal numeral (no leading zeros, "0x0" for null), for every 64-bit value:
+   the nibbles obtained by shifting and masking are the base-16 digits; leading zero nibbles are dropped *)
+Theorem C20_ptr_digits : forall p, 0 <= p < 18446744073709551616 -> f_out (fmt_ptr p) = 48 :: 120 :: hexnum p.
+Proof. exact fmt_ptr_digits_proof. Qed.
+Print Assumptions C20_ptr_digits.
 
 (* (d) termination of the only counted loop in the layout code: the 5 slots of the exponent buffer are enough
    and its text is the numeral, for every exponent the source admits (ASSERT(exponent < 1e4)) *)
